@@ -45,10 +45,12 @@ def run_s(prop, tier, seed, ev, ex, plans, accept=None, **opts):
     """plans: [(kinds tuple, U, HU)]; accept(cex)->bool filters which violation kinds belong to this property"""
     import obl_sched as S
     rc, viol = 0, False
-    for kinds, U, HU in plans:
+    for plan in plans:
+        kinds, U, HU = plan[:3]
+        popts = dict(opts, **(plan[3] if len(plan) > 3 else {}))
         t0 = time.time()
         try:
-            ob = S.ob_schedules(ex, kinds, U, HU, tags=(prop,), **opts)
+            ob = S.ob_schedules(ex, kinds, U, HU, tags=(prop,), **popts)
         except Exception as e:
             log(f"[{prop}] schedules {kinds}: INCONCLUSIVE ({type(e).__name__}: {str(e)[:300]})")
             if os.environ.get("VERIF_DEBUG"):
@@ -70,12 +72,15 @@ def run_s(prop, tier, seed, ev, ex, plans, accept=None, **opts):
             rc = max(rc, 2)
             continue
         handled = 0
+        skipped = []
         # every distinct role of counterexample found in this program is handled on its own:
         # a listed finding never masks a different violation of the same property
         for one in [ob] + list(getattr(ob, "others", [])):
             role = getattr(one, "role", None) or S.classify(one.cex)
             if accept is not None and not accept(role):
+                skipped.append(role)
                 continue   # a violation of another property's concern (reported by that property's check)
+            handled += 1
             log(f"[{prop}] {one.name}: solver found a schedule [{role}]: {one.detail}\n    steps: {' '.join(one.cex.get('steps', []))[:700]}")
             reproduced, path, out = native(prop, one.cex)
             kf = vlib.known_finding_for(prop, role)
@@ -95,4 +100,8 @@ def run_s(prop, tier, seed, ev, ex, plans, accept=None, **opts):
                 log(f"[{prop}] {oname}: schedule not confirmed on the real code -> INCONCLUSIVE\n    {str(out)[-500:]}")
                 ev.add(oname, "mirsym+z3", "inconclusive", one.time_s, note="schedule not reproduced natively", replay=path, **info)
                 rc = max(rc, 2)
+        if not handled:
+            log(f"[{prop}] {ob.name}: discharged for this property (the only schedules found belong to another property's finding: {skipped})")
+            ev.add(ob.name, "mirsym+z3", "discharged", ob.time_s, nonvacuous=ob.paths > 0,
+                   note=f"schedules found only for roles reported elsewhere: {skipped}", **info)
     return 1 if viol else rc
